@@ -449,3 +449,32 @@ Example C01_source_pipeline_num_nonvacuous :
   | None => False
   end.
 Proof. exact X.BC.SourceGuard.source_pipeline_num_nonvacuous. Qed.
+
+(* ---- the numeric rest reduced to a bound invariant (BC/SourceBounds.v) ---- *)
+(* if every visited state is num_ok B (open scopes <= B; at OpInc the integer variables of the innermost scope in [0, B];
+   at OpArray / OpMap the size operand within [.., B] / [0, B]; argument counts <= B) and B + 1 + max 0 budget <= MaxInt
+   (slack), the capstone holds with no reference to vm_in_scope.  That compiled code over a length-bounded universe
+   (SourceBounds.len_bounded, fe_len_bounded, code_len_bounded) visits only such states is
+   SourceBounds.compiled_states_bounded_statement: NOT proved - it needs the intermediate states of compile_correct. *)
+Require X.BC.SourceBounds.
+
+Theorem C01_source_pipeline_correct_bounded :
+  forall B fe cfg env c e dc before,
+    fn_no_machine fe -> compilable e = true -> (esize e <= dc)%nat ->
+    X.BC.SourceGuard.cfg_int cfg = true -> X.BC.SourceBounds.slack B cfg = true ->
+    exists P, gen_compile_program GenSchemes.schemes dc (c_mapenv cfg) c e = Some P /\
+    exists d0, forall d, (d0 <= d)%nat ->
+      X.BC.SourceBounds.run_num_ok B fe cfg env P d init_state = true ->
+      option_map VMSteps.erase_stop_mem (VMSteps.interp_run fe cfg env P GenVMSteps.vm_src d before)
+      = Some (VMSteps.erase_stop_mem (run_ref fe cfg env c e)).
+Proof. exact X.BC.SourceBounds.source_pipeline_correct_bounded. Qed.
+Print Assumptions C01_source_pipeline_correct_bounded.
+
+Example C01_source_pipeline_bounded_nonvacuous :
+  X.BC.SourceBounds.slack 3 BrVMSteps.w_cfg = true /\
+  match X.BC.SourceCorrect.cap_code with
+  | Some P => X.BC.SourceBounds.run_num_ok 3 BrVMSteps.w_fe BrVMSteps.w_cfg VNil P 9 init_state = true /\
+              X.BC.SourceBounds.run_num_ok 2 BrVMSteps.w_fe BrVMSteps.w_cfg VNil P 9 init_state = false
+  | None => False
+  end.
+Proof. vm_compute. repeat split; reflexivity. Qed.
